@@ -135,6 +135,8 @@ func init() {
 	// and find them by the whole digest
 	add("b23", cid.NewCidV1(cid.Raw, idmh([]byte("common--pfxA"))), []byte("common--pfxA"), "xpA")
 	add("b24", cid.NewCidV1(cid.Raw, idmh([]byte("common--pfxB"))), []byte("common--pfxB"), "xpB")
+	// ... and one whose whole digest is a proper prefix of theirs
+	add("b25", cid.NewCidV1(cid.Raw, idmh([]byte("common--pfx"))), []byte("common--pfx"), "xpP")
 
 	// digest identities
 	type dk struct{ s string }
